@@ -329,7 +329,7 @@ where
 
     #[inline(never)]
     fn init(&mut self) -> Result<bool, Error> {
-        let n = fill_buf(&mut self.buf_reader)?;
+        let n = self.fill()?;
         if n == 0 {
             self.state = State::Finished;
             return Ok(false);
@@ -407,7 +407,7 @@ where
                 self.make_room(incomplete_pos);
             }
 
-            fill_buf(&mut self.buf_reader)?;
+            self.fill()?;
 
             if let Some(pos) = self.search_incomplete(incomplete_pos)? {
                 incomplete_pos = pos;
@@ -473,6 +473,23 @@ where
 
         self.validate()?;
         Ok(None)
+    }
+
+    // Fills the buffer. The end of the input is recognized by a buffer that
+    // could not be filled completely, therefore a partly filled buffer cannot be
+    // used any more after a failed read: its contents are discarded and the
+    // reader is finished (until `seek()` is called, which reads the data again).
+    fn fill(&mut self) -> Result<usize, Error> {
+        match fill_buf(&mut self.buf_reader) {
+            Ok(n) => Ok(n),
+            Err(e) => {
+                self.state = State::Finished;
+                self.incomplete_pos = None;
+                let n = self.get_buf().len();
+                self.buf_reader.consume(n);
+                Err(Error::from(e))
+            }
+        }
     }
 
     // grow buffer based on policy
@@ -693,19 +710,24 @@ where
     pub fn seek(&mut self, to: &Position) -> Result<(), Error> {
         let offset = to.byte as i64 - self.position.byte as i64;
         let pos = self.buf_pos.pos.0 as i64 + offset;
-        self.position = to.clone();
-        self.incomplete_pos = None;
-        self.state = State::Positioned;
 
         if pos >= 0 && pos < (self.get_buf().len() as i64) {
             // position reachable within buffer -> no actual seeking necessary
+            self.position = to.clone();
+            self.incomplete_pos = None;
+            self.state = State::Positioned;
             self.buf_pos.reset(pos as usize);
             return Ok(());
         }
 
+        // if this fails, nothing has changed
         self.buf_reader.seek(io::SeekFrom::Start(to.byte))?;
-        fill_buf(&mut self.buf_reader)?;
+        // the buffer is empty now
+        self.position = to.clone();
+        self.incomplete_pos = None;
+        self.state = State::Positioned;
         self.buf_pos.reset(0);
+        self.fill()?;
         Ok(())
     }
 }
